@@ -257,4 +257,132 @@ theorem compute_ioKeys (K : Consts) (L : List LogEv) (out : Out) (h : compute K 
         rw [this] at hk'; exact hn k hk')]
       exact h1
 
+
+/-! ### When does `compute_generation_log` return?  An exact abstraction of the `None` checks -/
+
+/-- the two references the loop dereferences: (`activated_rail is not None`, `executed_action is not None`) -/
+abbrev Refs := Bool × Bool
+
+def accStep (K : Consts) : Refs → LogEv → Option Refs
+  | (c, e), .step fid _ => some (c || !K.ignoredFlows.contains fid, e)
+  | (_, e), .startIn _ => some (true, e)
+  | (_, e), .startOut _ => some (true, e)
+  | (c, e), .railFin => if c then some (false, e) else none
+  | (c, e), .actStart n => if K.ignoredActions.contains n then some (c, e) else if c then some (c, true) else none
+  | (c, e), .actFin n => if K.ignoredActions.contains n then some (c, e) else if e then some (c, false) else none
+  | (c, e), .llm _ => if e then some (c, e) else none
+  | s, .other => some s
+
+def accepts (K : Consts) : Refs → List LogEv → Option Refs
+  | s, [] => some s
+  | s, ev :: rest => match accStep K s ev with
+    | some s' => accepts K s' rest
+    | none => none
+
+def St.refs (st : St) : Refs := (st.cur.isSome, st.exec.isSome)
+
+theorem modifyExec_refs (st : St) (i j : Nat) (f : Act → Act) :
+    (st.modifyExec i j f).cur.isSome = st.cur.isSome ∧ (st.modifyExec i j f).exec = st.exec := by
+  unfold St.modifyExec
+  split
+  · exact ⟨rfl, rfl⟩
+  · constructor
+    · cases st.cur <;> rfl
+    · rfl
+
+/-- the abstraction is exact: the loop raises iff the abstract run rejects -/
+theorem stepEv_of_accStep (K : Consts) (st : St) (ev : LogEv) (s : Refs) (h : accStep K st.refs ev = some s) :
+    ∃ st', stepEv K st ev = .ok st' ∧ st'.refs = s := by
+  obtain ⟨done, cur, exec⟩ := st
+  cases ev with
+  | step fid next =>
+    simp only [accStep, St.refs, Option.some.injEq] at h
+    subst h
+    cases cur with
+    | none =>
+      simp only [stepEv]
+      split
+      · rename_i hi; exact ⟨_, rfl, by simp only [St.refs, hi]; rfl⟩
+      · rename_i hi
+        have hi' : K.ignoredFlows.contains fid = false := by simpa using hi
+        exact ⟨_, rfl, by simp only [St.refs, hi']; rfl⟩
+    | some r =>
+      simp only [stepEv]
+      split
+      · split
+        · exact ⟨_, rfl, by simp [St.refs]⟩
+        · exact ⟨_, rfl, by simp [St.refs]⟩
+      · exact ⟨_, rfl, by simp [St.refs]⟩
+  | startIn fid => simp only [accStep, St.refs, Option.some.injEq] at h; subst h; exact ⟨_, rfl, rfl⟩
+  | startOut fid => simp only [accStep, St.refs, Option.some.injEq] at h; subst h; exact ⟨_, rfl, rfl⟩
+  | railFin =>
+    cases cur with
+    | none => simp [accStep, St.refs] at h
+    | some r => simp only [accStep, St.refs, Option.isSome_some, if_true, Option.some.injEq] at h; subst h; exact ⟨_, rfl, rfl⟩
+  | actStart n =>
+    simp only [accStep, St.refs] at h
+    simp only [stepEv]
+    split
+    · rename_i hi; simp only [hi, if_true, Option.some.injEq] at h; subst h; exact ⟨_, rfl, rfl⟩
+    · rename_i hi
+      simp only [hi] at h
+      cases cur with
+      | none => simp at h
+      | some r => simp at h; subst h; exact ⟨_, rfl, rfl⟩
+  | actFin n =>
+    simp only [accStep, St.refs] at h
+    simp only [stepEv]
+    split
+    · rename_i hi; simp only [hi, if_true, Option.some.injEq] at h; subst h; exact ⟨_, rfl, rfl⟩
+    · rename_i hi
+      simp only [hi] at h
+      cases exec with
+      | none => simp at h
+      | some ij =>
+        obtain ⟨i, j⟩ := ij
+        simp at h; subst h
+        refine ⟨_, rfl, ?_⟩
+        have := modifyExec_refs ⟨done, cur, some (i, j)⟩ i j (fun a => { a with finished := true })
+        simp [St.refs, this.1]
+  | llm t =>
+    simp only [accStep, St.refs] at h
+    cases exec with
+    | none => simp at h
+    | some ij =>
+      obtain ⟨i, j⟩ := ij
+      simp at h; subst h
+      refine ⟨_, rfl, ?_⟩
+      have := modifyExec_refs ⟨done, cur, some (i, j)⟩ i j (fun a => { a with llm := a.llm ++ [t] })
+      simp [St.refs, this.1, this.2]
+  | other => simp only [accStep, Option.some.injEq] at h; subst h; exact ⟨_, rfl, rfl⟩
+
+theorem run_of_accepts (K : Consts) : ∀ (L : List LogEv) (st : St) (s : Refs), accepts K st.refs L = some s →
+    ∃ st', run K st L = .ok st' ∧ st'.refs = s
+  | [], st, s, h => by simp only [accepts, Option.some.injEq] at h; exact ⟨st, rfl, h⟩
+  | ev :: rest, st, s, h => by
+    simp only [accepts] at h
+    cases ha : accStep K st.refs ev with
+    | none => rw [ha] at h; cases h
+    | some s1 =>
+      rw [ha] at h
+      obtain ⟨st1, h1, r1⟩ := stepEv_of_accStep K st ev s1 ha
+      obtain ⟨st', h2, r2⟩ := run_of_accepts K rest st1 s (by rw [r1]; exact h)
+      exact ⟨st', by simp only [run, h1, h2], r2⟩
+
+theorem compute_of_accepts (K : Consts) (L : List LogEv) (hne : L ≠ []) (s : Refs) (h : accepts K (false, false) L = some s) :
+    ∃ out, compute K L = .ok out := by
+  obtain ⟨st', hr, _⟩ := run_of_accepts K L St.init s h
+  cases L with
+  | nil => exact absurd rfl hne
+  | cons e rest => exact ⟨finalize K st', by simp only [compute, hr]⟩
+
+theorem accepts_append (K : Consts) : ∀ (a b : List LogEv) (s : Refs),
+    accepts K s (a ++ b) = (accepts K s a).bind fun s' => accepts K s' b
+  | [], _, _ => rfl
+  | ev :: rest, b, s => by
+    simp only [List.cons_append, accepts]
+    cases accStep K s ev with
+    | none => rfl
+    | some s1 => exact accepts_append K rest b s1
+
 end NemoVerif.GenLog
